@@ -53,12 +53,23 @@ Section EngineProofs.
   Lemma upd_other f t v x : x <> t -> updE f t v x = f x.
   Proof. unfold upd. destruct (teq x t); congruence. Qed.
 
+  Lemma iter_S {A} (f : A -> A) n x : Nat.iter (S n) f x = f (Nat.iter n f x).
+  Proof. reflexivity. Qed.
+  Lemma iter_0 {A} (f : A -> A) x : Nat.iter 0 f x = x.
+  Proof. reflexivity. Qed.
+
   Lemma isdone_rel1 s : isdone (rel1 s) = isdone s.
   Proof. destruct s as [|[|[|n]]| | |]; reflexivity. Qed.
   Lemma isdone_start1 s : isdone (start1 s) = isdone s.
   Proof. destruct s as [|[|n]| | |]; reflexivity. Qed.
   Lemma isdone_iter k s : isdone (Nat.iter k rel1 s) = isdone s.
-  Proof. induction k as [|k IH]; cbn [Nat.iter nat_rect]; [reflexivity|]. rewrite isdone_rel1. exact IH. Qed.
+  Proof. induction k as [|k IH]; [reflexivity|]. rewrite iter_S, isdone_rel1. exact IH. Qed.
+
+  Lemma iter_succ_r {A} (f : A -> A) n : forall x, Nat.iter (S n) f x = Nat.iter n f (f x).
+  Proof.
+    induction n as [|n IH]; intros x; [reflexivity|].
+    rewrite (iter_S f (S n)), IH. reflexivity.
+  Qed.
 
   Lemma fold_release l : forall f x,
       fold_left releaseE l f x = Nat.iter (count_occ teq l x) rel1 (f x).
@@ -66,34 +77,33 @@ Section EngineProofs.
     induction l as [|a l IH]; intros f x; cbn [fold_left count_occ]; [reflexivity|].
     rewrite IH. unfold release.
     destruct (teq a x) as [->|Hne].
-    - rewrite upd_same. rewrite Nat.iter_succ_r. reflexivity.
+    - rewrite upd_same. rewrite iter_succ_r. reflexivity.
     - rewrite upd_other by congruence. reflexivity.
   Qed.
 
   Lemma iter_rel1_fixed k s :
     (forall n, s <> Waiting n) -> Nat.iter k rel1 s = s.
   Proof.
-    intros Hs. induction k as [|k IH]; cbn [Nat.iter nat_rect]; [reflexivity|].
-    rewrite IH. destruct s as [|n| | |]; try reflexivity. exfalso; eapply Hs; reflexivity.
+    intros Hs. induction k as [|k IH]; [reflexivity|].
+    rewrite iter_S, IH. destruct s as [|n| | |]; try reflexivity. exfalso; eapply Hs; reflexivity.
   Qed.
 
   Lemma iter_rel1_waiting k : forall n, 0 < k -> k <= n ->
       Nat.iter k rel1 (Waiting n) = if Nat.eqb n k then Ready else Waiting (n - k).
   Proof.
     induction k as [|k IH]; intros n Hk Hn; [lia|].
-    cbn [Nat.iter nat_rect].
+    rewrite iter_S.
     destruct k as [|k].
-    - cbn [Nat.iter nat_rect]. destruct n as [|[|n]]; [lia| reflexivity|].
-      cbn [rel1 Nat.eqb]. f_equal. lia.
-    - change (nat_rect (fun _ => status) (Waiting n) (fun _ => rel1) (S k)) with (Nat.iter (S k) rel1 (Waiting n)).
-      rewrite IH by lia.
+    - rewrite iter_0. destruct n as [|[|n]]; [lia| reflexivity|].
+      cbn [rel1 Nat.eqb]. f_equal; lia.
+    - rewrite IH by lia.
       destruct (Nat.eqb n (S k)) eqn:E1; [apply Nat.eqb_eq in E1; lia|].
       apply Nat.eqb_neq in E1.
       destruct (Nat.eqb n (S (S k))) eqn:E2.
       + apply Nat.eqb_eq in E2. replace (n - S k) with 1 by lia. reflexivity.
       + apply Nat.eqb_neq in E2.
         destruct (n - S k) as [|[|m]] eqn:E3; [lia|lia|].
-        cbn [rel1]. f_equal. lia.
+        cbn [rel1]. f_equal; lia.
   Qed.
 
   Lemma fold_start l : forall f x,
@@ -284,7 +294,7 @@ Section EngineProofs.
           destruct (f x) as [|n| | |] eqn:Ex.
           -- rewrite iter_rel1_fixed by (intros m; discriminate). lia.
           -- destruct (count_occ teq (preds x) t) as [|k] eqn:Ek.
-             ++ cbn [Nat.iter nat_rect]. lia.
+             ++ rewrite iter_0. lia.
              ++ rewrite iter_rel1_waiting by lia.
                 destruct (Nat.eqb n (S k)) eqn:En.
                 ** apply Nat.eqb_eq in En. lia.
